@@ -184,10 +184,39 @@ class Interp:
                 r = self.early_if(st, stmts[i + 1:], env, effects, f, depth)
                 if r is not NotImplemented:
                     return r
+            if isinstance(st, ast.If) and i + 1 < len(stmts) and any(isinstance(x, (ast.Assign, ast.AnnAssign)) for b_ in (st.body, st.orelse) for s_ in b_ for x in ast.walk(s_)):
+                r = self.fork_if(st, stmts[i + 1:], env, effects, f, depth)
+                if r is not NotImplemented:
+                    return r
             r = self.stmt(st, env, effects, f, depth)
             if r is not None:
                 return r
         return None
+
+    def fork_if(self, st, rest, env, effects, f, depth):
+        """a test on the class of a symbolic type whose branches bind locals (`if isinstance(t, A): n = ...; else: n = None`):
+        what follows depends on which branch ran, so the rest of the block is interpreted once per branch (path split)"""
+        mark = len(effects)
+        c = self.cond(st.test, env, effects, f, depth)
+        if not (isinstance(c, tuple) and c and c[0] == "isinstance") or getattr(self, "_forks", 0) > 6:
+            del effects[mark:]
+            return NotImplemented
+        self._forks = getattr(self, "_forks", 0) + 1
+        try:
+            e1: List = []
+            e2: List = []
+            env1, env2 = dict(env), dict(env)
+            r1 = self.block(list(st.body) + list(rest), env1, e1, f, depth)
+            r2 = self.block(list(st.orelse) + list(rest), env2, e2, f, depth)
+        finally:
+            self._forks -= 1
+        if e1:
+            effects.append(("if", c, e1))
+        if e2:
+            effects.append(("if", ("not", c), e2))
+        if r1 is not None and r2 is not None:
+            return r1
+        return Unknown("fork") if (r1 is not None or r2 is not None) else NoneV()
 
     def early_if(self, st, rest, env, effects, f, depth):
         """`if c: <transfers>; return ...` followed by more statements: the rest is the else branch.
@@ -358,6 +387,11 @@ class Interp:
             if c is False:
                 return True
             return ("not", c)
+        if isinstance(test, ast.Compare) and len(test.ops) == 1 and isinstance(test.ops[0], (ast.Is, ast.IsNot)) and isinstance(test.comparators[0], ast.Constant) and test.comparators[0].value is None and isinstance(test.left, ast.Name) and test.left.id in env:
+            lv = env[test.left.id]
+            isnone = True if isinstance(lv, NoneV) else (False if isinstance(lv, (IntV, StrV, WordV, BytesV, ListV, TypeV, BufV, ObjV, StructV, EnumV)) else None)
+            if isnone is not None:
+                return isnone if isinstance(test.ops[0], ast.Is) else (not isnone)
         v = self.expr(test, env, effects, f, depth)
         if isinstance(v, BoolV):
             return v.cond
